@@ -20,7 +20,7 @@ from ..util import (
     mangle,
 )
 from .node import Node
-from .synth import synthesize
+from .synth import SynthNode, synthesize
 
 
 class TypeResolutionError(TypeError):
@@ -294,12 +294,14 @@ class ModelBuilderSemantics:
             if isinstance(defined, type):
                 base = defined
 
+        constructor = self._builder._get_constructor(typename, base=base)
+        if isinstance(constructor, type) and issubclass(constructor, SynthNode):
+            # note: a synthesized class declares no fields, and its
+            #   constructor takes none: the rule's keyword parameters
+            #   (addition[Add, op='+']) have nowhere to go
+            kwargs = {}
+
         known = {'ast': ast, 'exp': ast}
-        return self._builder._instanceof(
-            typename,
-            known,
-            ast,
-            *args[1:],
-            base=base,
-            **kwargs,
-        )
+        # note: not through _instanceof(): a keyword parameter called
+        #   'base' would be taken for its own
+        return boundcall(constructor, known, ast, *args[1:], **kwargs)
